@@ -704,7 +704,7 @@ Definition rloan_send (g : cfg) (s : state) (r : rloanrec) : state :=
       | Some k =>
         let '(stamp, s) := fresh s in
         let m0 := rl_msg r in
-        let m := {| p_id := p_id m0; p_sv := p_sv m0; p_rid := p_rid m0; p_val := p_val m0; p_ocl := p_ocl m0; p_stamp := stamp |} in
+        let m := {| p_id := p_id m0; p_sv := sv; p_rid := p_rid m0; p_val := p_val m0; p_ocl := p_ocl m0; p_stamp := stamp |} in
         let x := k_chan k (rl_ch r) in
         match try_send (ovr g) (RB g) (c_sub x) m with
         | None => s
